@@ -5,7 +5,10 @@ Spec: specs/Routing.tla - handler-level semantics of the signaling server
 spoofed / malformed messages, the session ending with its host) computing
 every client's inbox; Isolation, PairFIFO and IndexOK are checked by TLC
 exhaustively to a depth bound and by simulation; the hub's phase-split
-interleavings are covered by Hub.tla (run here as well: Isolation, NoDup).
+interleavings are covered by Hub.tla: its transitions are replayed on the real
+hub with the gates of the C11 driver and the routing oracles (a connected peer
+is listed and routable, an addressed message reaches it exactly once) are
+judged here.
 Binding: TLC-simulated histories (3-4 sockets, 2-3 peer ids incl. duplicates,
 2 sessions) are executed step by step by real WebSocket clients against the
 real thruserv binary built from /repo; after every step every connected
@@ -48,6 +51,26 @@ def run(tier, seed):
     res = vlib.run_vh_sharded(['routing', '-edges', ep, '-thruserv', srv], shards, timeout=3000)
     for viol in res['violations']:
         v.violation(viol['sig'], viol.get('replay'))
+    # the hub's phase-split interleavings (a peer joining while the last one is still leaving, ...) decide whether an
+    # addressed message reaches a connected peer: gated replay on the real hub (the C11 driver), routing oracles only
+    HUBCFG = dict(Conns='<-ConnsA', Sess='<-SessA', PeerOf='<-PeerOfA', Track=True, NB=1, NS=1, MaxObj=3, SendOnClosedPanics=False, GCUsesCapturedMap=False)
+    eh = os.path.join(work, "hubA.ndjson")
+    try:
+        import C11 as c11
+        HUBCFG = dict(c11.CFG['A'], Track=True, NB=1, NS=1, MaxObj=3, **c11.CURRENT)
+        hinv = c11.INVS
+    except Exception:
+        hinv = []
+    rh = vlib.run_tlc('Hub', dict(constants=HUBCFG, invariants=hinv, view='View', action_constraint='Emit'), workers=vlib.NCPU, edges_path=eh, timeout=1800)
+    if rh['violated']:
+        raise vlib.HarnessTrouble("Hub.tla violates its invariants:\n" + rh['violation_text'][:1500])
+    hub = vlib.run_vh_sharded(['hub', '-edges', eh, '-cfg', 'A', '-ns', '1', '-seed', str(seed), '-sample', '2500' if tier == "quick" else '12000',
+                               '-budget', '60s' if tier == "quick" else '8m'], 6, timeout=1800)
+    ROUTING = {'connected_peer_not_routable', 'connected_peer_not_listed', 'sendto_live_peer_returns_false',
+               'addressed_message_to_live_peer_not_delivered', 'message_delivered_twice'}
+    for viol in hub['violations']:
+        if viol['sig'].get('kind') in ROUTING:
+            v.violation(dict(viol['sig'], via='hub'), viol.get('replay'))
     # concurrent phase: every client of three sessions (same peer ids in each) sends at once
     conc = vlib.run_vh_sharded(['routing-concurrent', '-thruserv', srv, '-rounds', '8' if tier == "quick" else '60'], 4, timeout=1800)
     for viol in conc['violations']:
@@ -57,6 +80,7 @@ def run(tier, seed):
                       tlc=dict(exhaustive=dict(config=SMALL, depth=depth, generated=r['generated'], distinct=r['distinct']),
                                simulate=dict(config=BIG, traces=nsim, depth=dsim, states=vlib.sim_states(rs))),
                       replay=dict(histories=res['behaviours'], steps=res['steps'], long_histories=res['distinct'],
+                                  hub_interleavings_replayed=hub['behaviours'],
                                   concurrent_rounds=conc['behaviours'], concurrent_messages_judged=conc['extra'].get('messages_judged'),
                                   inbox_mismatches=res['drift'], actions_exercised=res['extra'].get('actions_exercised')))
     v.assumptions = ["rate limits off, at most a few undelivered messages per recipient (the 256-entry queue never fills)",
